@@ -351,6 +351,17 @@ class Prov:
                            "std::sync::Mutex::<T>::new"):
                     npi = self._strip_deref(pi)
                 return self._operand(f, a, npi)
+        # `opt.unwrap_or(d)` / `res.unwrap_or(d)`: the payload or the default
+        last0 = (c.res or d).split("::")[-1]
+        if last0 in ("unwrap_or", "unwrap_or_default", "unwrap", "expect") and c.args \
+                and (c.argtys[0] if c.argtys else "").startswith(("std::option::Option<", "std::result::Result<")):
+            opt = (c.argtys[0]).startswith("std::option::Option<")
+            head = (("d", "Some"), ("f", 0, "std::option::Option", "Some")) if opt \
+                else (("d", "Ok"), ("f", 0, "std::result::Result", "Ok"))
+            out_ = set(self._operand(f, c.args[0], head + tuple(pi)))
+            if last0 == "unwrap_or" and len(c.args) > 1:
+                out_ |= self._operand(f, c.args[1], pi)
+            return frozenset(out_)
         # combinators that leave one side of a Result/Option untouched
         if pi and pi[0] != ANY and pi[0] != "*" and pi[0][0] == "d" and c.args:
             side = pi[0][1]
